@@ -85,15 +85,15 @@ MV walk(const NodeT& n, std::string* err = nullptr, int depth = 0) {
 
 // Cross-check lookups on every container of `n` against the model `m` (which must equal walk(n)).
 template <class NodeT>
-void check_lookups(const NodeT& n, const MV& m, std::string* err) {
+void check_lookups(const NodeT& n, const MV& m, std::string* err, bool first_match = false) {
   auto bad = [&](const std::string& s) {
     if (err && err->empty()) *err = s;
   };
   if (m.k == MV::Arr) {
     for (size_t i = 0; i < m.a.size(); i++) {
-      const NodeT& e = n[i];
+      const auto& e = n[i];
       if (&e != &*(n.Begin() + i)) bad("operator[](idx) != Begin()+idx");
-      check_lookups(e, m.a[i], err);
+      check_lookups(e, m.a[i], err, first_match);
     }
     if (!m.a.empty() && &n.Back() != &n[m.a.size() - 1]) bad("Back() != last element");
   } else if (m.k == MV::Obj) {
@@ -108,16 +108,19 @@ void check_lookups(const NodeT& n, const MV& m, std::string* err) {
       // carrying that key, but without duplicates it must be exactly this member
       bool dup = false;
       for (size_t j = 0; j < m.o.size(); j++) dup = dup || (j != i && m.o[j].first == k);
+      auto it2 = n.FindMember(k.data(), k.size());
       size_t got = (size_t)(it - n.MemberBegin());
       if (!dup && got != i) bad("FindMember(view) returned the wrong member for " + k);
       if (dup && m.o[got].first != k) bad("FindMember(view) returned a member with another key");
-      auto it2 = n.FindMember(k.data(), k.size());
+      if (dup && first_match && got != first) bad("FindMember(view) did not return the first member named " + k);
+      if (dup && first_match && it2 != n.MemberEnd() && (size_t)(it2 - n.MemberBegin()) != first)
+        bad("FindMember(ptr,len) did not return the first member named " + k);
       if (it2 == n.MemberEnd()) bad("FindMember(ptr,len) misses existing key " + k);
       else if (!dup && it2 != it) bad("FindMember(ptr,len) != FindMember(view)");
       if (!n.HasMember(sonic_json::StringView(k.data(), k.size()))) bad("HasMember false for existing key");
       if (!dup && &n[sonic_json::StringView(k.data(), k.size())] != &it->value) bad("operator[](key) != FindMember value");
       (void)first;
-      check_lookups((n.MemberBegin() + i)->value, m.o[i].second, err);
+      check_lookups((n.MemberBegin() + i)->value, m.o[i].second, err, first_match);
     }
     // an absent key
     std::string absent = "\x01no-such-key\x02";
